@@ -393,7 +393,7 @@ Section Safety.
 
   Definition safe_ev (e : event) : Prop :=
     (mutating (ev_op e) = true -> is_prefix nd (ev_target e) = true) /\
-    (ev_op e = ORemoveAll -> ev_path e = "" \/ ev_target e = nd).
+    (ev_op e = ORemoveAll -> ev_target e = nd).
 
   (* every proper ancestor of newDir is an existing directory *)
   Definition ancestors_dirs (s : fs) : Prop :=
@@ -630,7 +630,7 @@ Section Safety.
   Qed.
 
   Lemma step_remove fault p w :
-    (p = "" \/ query_comps p = nd) -> Inv w -> Inv (fst (step_world fault (ERemoveAll p) w)).
+    query_comps p = nd -> Inv w -> Inv (fst (step_world fault (ERemoveAll p) w)).
   Proof.
     intros Hp (W & T & F).
     assert (S : forall r, safe_ev (mkEv ORemoveAll p (res_ok r))).
@@ -641,7 +641,6 @@ Section Safety.
       destruct (fs_find (w_fs w) p) as [|q e| |] eqn:Fd; cbn; fin S.
       + apply fs_wf_remove; auto.
       + intros A q' Hq'. cbn [w_fs]. rewrite lookup_remove.
-        destruct Hp as [->|Hp]; [cbn in Fd; discriminate|].
         apply fs_find_node in Fd. destruct Fd as [-> _]. rewrite Hp, Hq'. apply F; auto.
   Qed.
 
@@ -663,7 +662,7 @@ Section Safety.
   Qed.
 
   Lemma triple_remove {A} p (k : eres -> prog A) Q :
-    (p = "" \/ query_comps p = nd) ->
+    query_comps p = nd ->
     (forall r, triple (k r) Q) -> triple (Op (ERemoveAll p) k) Q.
   Proof.
     intros Hp Hk ch fault w w' out I H.
@@ -1070,14 +1069,14 @@ End Safety.
 Definition newdir_path (target newdir : string) : cpath :=
   query_comps (if String.eqb newdir "" then default_new_dir (query_comps target) else newdir).
 
-Lemma triple_prelude nd s0 target scope newdir :
+Lemma triple_checks nd s0 target scope newdir :
   nd = newdir_path target newdir ->
-  triple nd s0 (localize_prelude target scope newdir)
-    (fun x => let '(sc, troot, nd') := x in
-              nd' = nd /\ good_path nd = true /\ good_path sc = true /\
+  triple nd s0 (prelude_checks target scope newdir)
+    (fun x => let '(sc, troot, raw) := x in
+              query_comps raw = nd /\ good_path sc = true /\
               exists r, good_path r = true /\ troot = sc ++ r).
 Proof.
-  intros End. unfold localize_prelude.
+  intros End. unfold prelude_checks.
   eapply triple_bind; [apply triple_guard|]. intros _ _.
   eapply triple_bind; [apply triple_confirm_dir|]. intros troot [Gt Et].
   eapply triple_bind.
@@ -1092,19 +1091,39 @@ Proof.
   intros sc [Gsc Hr].
   assert (Eraw : nd = query_comps (if String.eqb newdir "" then default_new_dir troot else newdir)).
   { rewrite End. unfold newdir_path. rewrite Et. reflexivity. }
-  set (raw := if String.eqb newdir "" then default_new_dir troot else newdir) in *.
+  eapply triple_bind; [apply triple_op_bool; reflexivity|].
+  intros ex _. destruct ex; [apply triple_throw|]. apply triple_ret. auto.
+Qed.
+
+Lemma triple_create nd s0 sc troot raw :
+  query_comps raw = nd ->
+  triple nd s0 (prelude_create (sc, troot, raw))
+    (fun x => let '(sc', troot', nd') := x in
+              sc' = sc /\ troot' = troot /\ nd' = nd /\ good_path nd = true).
+Proof.
+  intros Eraw. unfold prelude_create.
   eapply triple_bind.
-  { instantiate (1 := fun _ => True). unfold op_bool. apply triple_ro; auto.
-    intros r; destruct r; apply triple_ret; auto. }
-  intros ex _. destruct ex; [apply triple_throw|].
-  eapply triple_bind.
-  { eapply triple_op_unit; [left; reflexivity|]. rewrite <- Eraw. apply is_prefix_refl. }
+  { eapply triple_op_unit; [left; reflexivity|]. rewrite Eraw. apply is_prefix_refl. }
   intros _ _.
   eapply triple_bind; [apply triple_pcatch, triple_confirm_dir|]. intros r Hrr.
   destruct r as [nd'|].
   - destruct (Hrr _ eq_refl) as [G' E']. apply triple_ret.
-    rewrite <- Eraw in E'. subst nd'. repeat split; auto.
+    rewrite Eraw in E'. subst nd'. repeat split; auto.
   - apply triple_remove; auto. intros; apply triple_throw.
+Qed.
+
+Lemma triple_prelude nd s0 target scope newdir :
+  nd = newdir_path target newdir ->
+  triple nd s0 (localize_prelude target scope newdir)
+    (fun x => let '(sc, troot, nd') := x in
+              nd' = nd /\ good_path nd = true /\ good_path sc = true /\
+              exists r, good_path r = true /\ troot = sc ++ r).
+Proof.
+  intros End. unfold localize_prelude.
+  eapply triple_bind; [apply triple_checks; eauto|].
+  intros [[sc troot] raw] (Eraw & Gsc & Hr).
+  eapply triple_conseq; [apply triple_create; auto|].
+  intros [[sc' troot'] nd'] (-> & -> & -> & G). auto.
 Qed.
 
 Lemma triple_tail nd s0 orc fuel sc troot :
@@ -1114,15 +1133,15 @@ Lemma triple_tail nd s0 orc fuel sc troot :
 Proof.
   intros Gnd Gsc (r & Gr & ->). unfold localize_tail.
   rewrite rel_comps_below. rewrite join_comps_normal by (apply good_path_normal; auto).
-  eapply triple_bind.
-  { eapply triple_op_unit; [right; left; reflexivity|].
-    rewrite query_show by (rewrite good_path_app, Gnd, Gr; auto). apply is_prefix_app. }
-  intros _ _.
+  eapply triple_mut; [right; left; reflexivity | |].
+  { rewrite query_show by (rewrite good_path_app, Gnd, Gr; auto). apply is_prefix_app. }
+  intros r0.
+  assert (Hcl : triple nd s0 (Op (ERemoveAll (show_abs nd)) (fun _ => Throw XErr : prog string)) (fun _ => True)).
+  { apply triple_remove; [apply query_show; auto|]. intros; apply triple_throw. }
+  destruct r0; try exact Hcl.
   eapply triple_bind.
   { apply triple_pcatch. apply triple_localize; auto. exists r. auto. }
-  intros [u|] _.
-  - apply triple_ret; auto.
-  - apply triple_remove; [right; apply query_show; auto|]. intros; apply triple_throw.
+  intros [u|] _; [apply triple_ret; auto | exact Hcl].
 Qed.
 
 Theorem run_safe orc fuel target scope newdir s0 :
@@ -1136,7 +1155,7 @@ Lemma inv_world0 nd s : fs_wf s -> Inv nd s (world0 s).
 Proof. intros W. split; [exact W|]. split; [constructor|]. intros _ p _. reflexivity. Qed.
 
 (* every mkdir / write of any run, with any fault position and any map iteration order, targets
-   a path inside newDir; RemoveAll is only ever applied to newDir (or to "" — the createNewDir defect) *)
+   a path inside newDir; RemoveAll is only ever applied to newDir *)
 Theorem writes_confined orc ch fuel target scope newdir fault s w out :
   fs_wf s ->
   run_localize orc ch fuel target scope newdir fault s = (w, out) ->
@@ -1190,63 +1209,58 @@ Proof.
   rewrite run_pcatch. destruct (run ch fault m w) as [w1 [a|[| | | |]]]; intros H; inv H; discriminate.
 Qed.
 
-(* programs that never create directories recursively: the part of Run before MkdirAll(dst) *)
-Inductive no_mkdirall {A} : prog A -> Prop :=
-| nm_ret a : no_mkdirall (Ret a)
-| nm_throw x : no_mkdirall (Throw x)
-| nm_op e k : (forall p, e <> EMkdirAll p) -> (forall r, no_mkdirall (k r)) -> no_mkdirall (Op e k).
-
-Definition quiet (tr : list event) : Prop := forall e, In e tr -> ev_op e <> OMkdirAll.
-
-Lemma no_mkdirall_bind {A B} (m : prog A) (f : A -> prog B) :
-  no_mkdirall m -> (forall a, no_mkdirall (f a)) -> no_mkdirall (pbind m f).
-Proof. induction 1; cbn; auto; constructor; auto. Qed.
-
-Lemma no_mkdirall_pcatch {A} (m : prog A) : no_mkdirall m -> no_mkdirall (pcatch m).
-Proof. induction 1; cbn; try constructor; auto. destruct x; constructor. Qed.
-
-Lemma no_mkdirall_quiet {A} ch fault (m : prog A) : no_mkdirall m ->
-  forall w w' out, quiet (w_trace w) -> run ch fault m w = (w', out) -> quiet (w_trace w').
+Lemma step_ro_inv fault e w w1 r :
+  step_world fault e w = (w1, r) -> read_only e = true ->
+  w_fs w1 = w_fs w /\ (r = RFail \/ r = snd (exec e (w_fs w))).
 Proof.
-  induction 1 as [a|x|e k He Hk IH]; intros w w' out Q H0; cbn in H0; try (inv H0; auto).
-  destruct e; try (eapply IH; eauto; fail);
-    (destruct (step_world fault _ w) as [w1 r] eqn:E; unfold step_world in E;
-     match type of E with context [if ?b then _ else _] => destruct b end;
-     [| destruct (exec _ (w_fs w)) as [s' r'] ]; inv E;
-     (eapply IH; [|eauto]; intros e' [<-|Hin]; cbn; auto; try discriminate;
-      exfalso; eapply He; reflexivity)).
+  intros H R. unfold step_world in H.
+  destruct (fallible e && fault_hit fault (w_n w))%bool.
+  - inv H. auto.
+  - pose proof (exec_read_only e (w_fs w) R) as X.
+    destruct (exec e (w_fs w)) as [s' r'] eqn:E. inv H. cbn in *. auto.
 Qed.
 
-Lemma no_mkdirall_confirm p : no_mkdirall (confirm_dir p).
+(* programs made of read-only effects leave the state alone: the part of Run before Mkdir(newDir) *)
+Inductive ro_only {A} : prog A -> Prop :=
+| ro_ret a : ro_only (Ret a)
+| ro_throw x : ro_only (Throw x)
+| ro_op e k : read_only e = true -> (forall r, ro_only (k r)) -> ro_only (Op e k).
+
+Lemma ro_only_bind {A B} (m : prog A) (f : A -> prog B) :
+  ro_only m -> (forall a, ro_only (f a)) -> ro_only (pbind m f).
+Proof. induction 1; cbn; auto; constructor; auto. Qed.
+
+Lemma ro_only_pcatch {A} (m : prog A) : ro_only m -> ro_only (pcatch m).
+Proof. induction 1; cbn; try constructor; auto. destruct x; constructor. Qed.
+
+Lemma ro_only_fs {A} ch fault (m : prog A) : ro_only m ->
+  forall w w' out, run ch fault m w = (w', out) -> w_fs w' = w_fs w.
 Proof.
-  unfold confirm_dir. destruct (String.eqb p ""); constructor; try discriminate.
+  induction 1 as [a|x|e k He Hk IH]; intros w w' out H0;
+    [cbn in H0; inv H0; auto | cbn in H0; inv H0; auto |].
+  rewrite run_op in H0 by (destruct e; discriminate).
+  destruct (step_world fault e w) as [w1 r] eqn:S.
+  destruct (step_ro_inv _ _ _ _ _ S He) as [E _]. rewrite <- E. eapply IH; eauto.
+Qed.
+
+Lemma ro_only_confirm p : ro_only (confirm_dir p).
+Proof.
+  unfold confirm_dir. destruct (String.eqb p ""); constructor; auto.
   intros r; destruct r; try constructor. destruct (String.eqb f ""); constructor.
 Qed.
 
-Lemma no_mkdirall_prelude target scope newdir : no_mkdirall (localize_prelude target scope newdir).
+Lemma ro_only_checks target scope newdir : ro_only (prelude_checks target scope newdir).
 Proof.
-  unfold localize_prelude.
-  apply no_mkdirall_bind; [unfold guard_local; destruct (remote_like target); constructor|]. intros _.
-  apply no_mkdirall_bind; [apply no_mkdirall_confirm|]. intros troot.
-  apply no_mkdirall_bind.
+  unfold prelude_checks.
+  apply ro_only_bind; [unfold guard_local; destruct (remote_like target); constructor|]. intros _.
+  apply ro_only_bind; [apply ro_only_confirm|]. intros troot.
+  apply ro_only_bind.
   { destruct (String.eqb scope ""); [constructor|].
-    apply no_mkdirall_bind; [apply no_mkdirall_confirm|]. intros s.
+    apply ro_only_bind; [apply ro_only_confirm|]. intros s.
     destruct (has_prefix_c troot s); constructor. }
-  intros sc. apply no_mkdirall_bind.
-  { unfold op_bool. constructor; try discriminate. intros r; destruct r; constructor. }
-  intros ex. destruct ex; [constructor|].
-  apply no_mkdirall_bind.
-  { unfold op_unit. constructor; try discriminate. intros r; destruct r; constructor. }
-  intros _. apply no_mkdirall_bind; [apply no_mkdirall_pcatch, no_mkdirall_confirm|].
-  intros r. destruct r; constructor; try discriminate. intros; constructor.
-Qed.
-
-Lemma step_mkdirall_res fault p w :
-  snd (step_world fault (EMkdirAll p) w) = RUnit \/
-  (snd (step_world fault (EMkdirAll p) w) = RFail).
-Proof.
-  unfold step_world. destruct (fallible (EMkdirAll p) && fault_hit fault (w_n w))%bool; cbn; auto.
-  destruct (fs_mkdir (w_fs w) p); cbn; auto.
+  intros sc. apply ro_only_bind.
+  { unfold op_bool. constructor; auto. intros r; destruct r; constructor. }
+  intros ex. destruct ex; constructor.
 Qed.
 
 Lemma step_trace fault e w :
@@ -1257,60 +1271,130 @@ Proof.
   destruct (exec e (w_fs w)); reflexivity.
 Qed.
 
-Lemma tail_cleanup orc ch fault fuel sc troot nd w w' :
-  quiet (w_trace w) ->
-  run ch fault (localize_tail orc fuel (sc, troot, nd)) w = (w', OExn XErr) ->
-  (exists e, In e (w_trace w') /\ ev_op e = OMkdirAll /\ ev_ok e = true) ->
-  (forall e, In e (w_trace w') -> ev_op e = ORemoveAll -> ev_ok e = true) ->
-  exists_path (w_fs w') nd = false.
+(* a directory-creating step either succeeds or leaves the state alone *)
+Lemma step_mkdir_cases fault e p w :
+  e = EMkdir p \/ e = EMkdirAll p ->
+  (snd (step_world fault e w) = RUnit /\ fs_mkdir (w_fs w) p = Some (w_fs (fst (step_world fault e w)))) \/
+  (snd (step_world fault e w) = RFail /\ w_fs (fst (step_world fault e w)) = w_fs w).
 Proof.
-  intros Q H Hmk Hrm. unfold localize_tail in H.
-  rewrite run_bind in H. unfold op_unit in H. rewrite run_op in H by discriminate.
-  pose proof (step_mkdirall_res fault (show_abs (join_comps nd (rel_comps sc troot))) w) as R.
-  pose proof (step_trace fault (EMkdirAll (show_abs (join_comps nd (rel_comps sc troot)))) w) as T.
-  destruct (step_world fault (EMkdirAll (show_abs (join_comps nd (rel_comps sc troot)))) w) as [w1 r].
-  cbn [fst snd] in R, T. destruct R as [->| ->]; cbn [run] in H.
-  2:{ inv H. exfalso. destruct Hmk as (e & Hin & Hop & Hok). rewrite T in Hin.
-      destruct Hin as [<-|Hin]; [cbn in Hok; discriminate|]. eapply Q; eauto. }
+  intros He. unfold step_world.
+  destruct (fallible e && fault_hit fault (w_n w))%bool; [right; auto|].
+  assert (X : exec e (w_fs w) = match fs_mkdir (w_fs w) p with Some s' => (s', RUnit) | None => (w_fs w, RFail) end)
+    by (destruct He; subst; reflexivity).
+  rewrite X. destruct (fs_mkdir (w_fs w) p); cbn; auto.
+Qed.
+
+(* a RemoveAll step that reports success has removed the path *)
+Lemma step_remove_ok fault p w :
+  res_ok (snd (step_world fault (ERemoveAll p) w)) = true ->
+  fs_remove_all (w_fs w) p = Some (w_fs (fst (step_world fault (ERemoveAll p) w))).
+Proof.
+  unfold step_world. destruct (fallible (ERemoveAll p) && fault_hit fault (w_n w))%bool; [discriminate|].
+  cbn [exec]. destruct (fs_remove_all (w_fs w) p); cbn; [reflexivity | discriminate].
+Qed.
+
+Lemma fs_find_comps s p : query_comps p <> [] -> fs_find s p = find_walk s [] (query_comps p).
+Proof.
+  intros H. unfold fs_find.
+  destruct (String.eqb p "") eqn:E1; [apply String.eqb_eq in E1; subst; exfalso; apply H; reflexivity|].
+  destruct (String.eqb p "/" || String.eqb p ".")%bool eqn:E2; [exfalso; apply H; apply query_root_forms; auto|].
+  destruct (query_comps p); [congruence | reflexivity].
+Qed.
+
+Lemma exists_path_root s : exists_path s [] = true.
+Proof. reflexivity. Qed.
+
+(* Exists(p) and Exists(newDir.String()) agree when p denotes newDir *)
+Lemma exists_path_query s p :
+  good_path (query_comps p) = true -> query_comps p <> [] ->
+  exists_path s (query_comps p) = match fs_find s p with FRoot | FNode _ _ => true | _ => false end.
+Proof.
+  intros G Hne. unfold exists_path. rewrite (fs_find_comps s p Hne).
+  rewrite fs_find_comps by (rewrite query_show; auto). rewrite query_show by auto. reflexivity.
+Qed.
+
+(* createNewDir: an error return leaves no newDir (given it was not there and no RemoveAll failed) *)
+Lemma create_cleanup ch fault sc troot raw w w' :
+  run ch fault (prelude_create (sc, troot, raw)) w = (w', OExn XErr) ->
+  exists_path (w_fs w) (query_comps raw) = false ->
+  (forall e, In e (w_trace w') -> ev_op e = ORemoveAll -> ev_ok e = true) ->
+  exists_path (w_fs w') (query_comps raw) = false.
+Proof.
+  intros H Fr Hrm. unfold prelude_create in H. rewrite run_bind in H.
+  unfold op_unit in H. rewrite run_op in H by discriminate.
+  pose proof (step_mkdir_cases fault (EMkdir raw) raw w (or_introl eq_refl)) as C.
+  destruct (step_world fault (EMkdir raw) w) as [w1 r] eqn:S1. cbn [fst snd] in C.
+  destruct C as [[-> D]|[-> E]]; cbn [run] in H.
+  2:{ inv H. rewrite E. exact Fr. }
   rewrite run_bind in H.
-  destruct (run ch fault (pcatch _) w1) as [w2 [[u|]|x]] eqn:E.
+  pose proof (ro_only_fs ch fault _ (ro_only_pcatch _ (ro_only_confirm raw)) w1) as RO.
+  destruct (run ch fault (pcatch (confirm_dir raw)) w1) as [w2 [[nd'|]|x]] eqn:R2.
   - cbn in H. inv H.
-  - rewrite run_op in H by discriminate.
-    pose proof (step_trace fault (ERemoveAll (show_abs nd)) w2) as T2.
-    destruct (step_world fault (ERemoveAll (show_abs nd)) w2) as [w3 r3] eqn:S3.
-    cbn [run] in H. inv H. cbn [fst snd] in T2.
+  - specialize (RO _ _ eq_refl).
+    rewrite run_op in H by discriminate.
+    pose proof (step_trace fault (ERemoveAll raw) w2) as T.
+    pose proof (step_remove_ok fault raw w2) as K.
+    destruct (step_world fault (ERemoveAll raw) w2) as [w3 r3] eqn:S3. cbn [fst snd] in T, K.
+    cbn [run] in H. inv H.
     assert (Ok3 : res_ok r3 = true).
-    { specialize (Hrm (mkEv ORemoveAll (show_abs nd) (res_ok r3))). cbn in Hrm. apply Hrm; auto.
-      rewrite T2. left. reflexivity. }
-    unfold step_world in S3.
-    destruct (fallible (ERemoveAll (show_abs nd)) && fault_hit fault (w_n w2))%bool.
-    + inv S3. discriminate.
-    + cbn [exec] in S3. destruct (fs_remove_all (w_fs w2) (show_abs nd)) as [s'|] eqn:RA.
-      * inv S3. cbn [w_fs]. unfold exists_path. eapply remove_all_gone; eauto.
-      * inv S3. discriminate.
+    { apply (Hrm (mkEv ORemoveAll raw (res_ok r3))); auto. rewrite T. left; reflexivity. }
+    specialize (K Ok3). apply remove_all_gone in K.
+    unfold fs_mkdir in D. pose proof (legal_all_good _ (add_dirs_legal _ _ _ _ D)) as G.
+    destruct (query_comps raw) as [|c0 cs] eqn:Q.
+    + rewrite exists_path_root in Fr. discriminate.
+    + rewrite <- Q in *. rewrite exists_path_query; auto. rewrite Q; discriminate.
   - inv H. exfalso. eapply pcatch_not_err; eauto.
 Qed.
 
-(* If localization fails with an error after the destination tree was started (MkdirAll(dst)
-   succeeded, i.e. the fault — if any — hit at or after the first effect of localize()), and the
-   cleanup call itself did not fail, then newDir does not exist afterwards. *)
+(* Run after NewLoader: an error return leaves no newDir *)
+Lemma tail_cleanup orc ch fault fuel sc troot nd w w' :
+  run ch fault (localize_tail orc fuel (sc, troot, nd)) w = (w', OExn XErr) ->
+  (forall e, In e (w_trace w') -> ev_op e = ORemoveAll -> ev_ok e = true) ->
+  exists_path (w_fs w') nd = false.
+Proof.
+  intros H Hrm. unfold localize_tail in H. rewrite run_op in H by discriminate.
+  destruct (step_world fault (EMkdirAll _) w) as [w1 r].
+  assert (Cl : forall w2 w3, run ch fault (Op (ERemoveAll (show_abs nd)) (fun _ => Throw XErr : prog string)) w2 = (w3, OExn XErr) ->
+               (forall e, In e (w_trace w3) -> ev_op e = ORemoveAll -> ev_ok e = true) ->
+               exists_path (w_fs w3) nd = false).
+  { intros w2 w3 H2 Hrm2. rewrite run_op in H2 by discriminate.
+    pose proof (step_trace fault (ERemoveAll (show_abs nd)) w2) as T.
+    pose proof (step_remove_ok fault (show_abs nd) w2) as K.
+    destruct (step_world fault (ERemoveAll (show_abs nd)) w2) as [w4 r4]. cbn [fst snd] in T, K.
+    cbn [run] in H2. inv H2.
+    assert (Ok4 : res_ok r4 = true).
+    { apply (Hrm2 (mkEv ORemoveAll (show_abs nd) (res_ok r4))); auto. rewrite T. left; reflexivity. }
+    unfold exists_path. eapply remove_all_gone; eauto. }
+  destruct r; try (eapply Cl; eauto; fail).
+  rewrite run_bind in H.
+  destruct (run ch fault (pcatch _) w1) as [w2 [[u|]|x]] eqn:E.
+  - cbn in H. inv H.
+  - eapply Cl; eauto.
+  - inv H. exfalso. eapply pcatch_not_err; eauto.
+Qed.
+
+(* ALL-OR-NOTHING for error returns (since the repair d268200): whenever localize RETURNS an error —
+   for every fault position, also the early ones — and no RemoveAll call failed, newDir (which was
+   not there before) does not exist afterwards. *)
 Theorem all_or_nothing_partial orc ch fuel target scope newdir fault s w :
   fs_wf s ->
+  exists_path s (newdir_path target newdir) = false ->
   run_localize orc ch fuel target scope newdir fault s = (w, OExn XErr) ->
-  (exists e, In e (w_trace w) /\ ev_op e = OMkdirAll /\ ev_ok e = true) ->
   (forall e, In e (w_trace w) -> ev_op e = ORemoveAll -> ev_ok e = true) ->
   exists_path (w_fs w) (newdir_path target newdir) = false.
 Proof.
-  intros W H Hmk Hrm. unfold run_localize, localize_run in H. rewrite run_bind in H.
-  destruct (run ch fault (localize_prelude target scope newdir) (world0 s)) as [w1 [[[sc troot] nd']|x]] eqn:E.
-  - pose proof (no_mkdirall_quiet ch fault _ (no_mkdirall_prelude target scope newdir) _ _ _
-                  (fun e (Hin : In e (w_trace (world0 s))) => match Hin with end) E) as Q.
-    destruct (triple_prelude _ s target scope newdir eq_refl _ _ _ _ _ (inv_world0 _ _ W) E) as [_ P].
-    destruct (P _ eq_refl) as (-> & _).
-    eapply tail_cleanup; eauto.
-  - inv H. exfalso. destruct Hmk as (e & Hin & Hop & _).
-    eapply (no_mkdirall_quiet ch fault _ (no_mkdirall_prelude target scope newdir) _ _ _
-              (fun e (Hin : In e (w_trace (world0 s))) => match Hin with end) E); eauto.
+  intros W Fr H Hrm. unfold run_localize, localize_run, localize_prelude in H.
+  rewrite !run_bind in H.
+  destruct (run ch fault (prelude_checks target scope newdir) (world0 s)) as [w0 [[[sc troot] raw]|x]] eqn:E0.
+  - pose proof (ro_only_fs _ _ _ (ro_only_checks target scope newdir) _ _ _ E0) as F0. cbn in F0.
+    destruct (triple_checks _ s target scope newdir eq_refl _ _ _ _ _ (inv_world0 _ _ W) E0) as [I0 P].
+    destruct (P _ eq_refl) as (Eraw & Gsc & Hr).
+    destruct (run ch fault (prelude_create (sc, troot, raw)) w0) as [w1 [[[sc' troot'] nd']|x]] eqn:E1.
+    + destruct (triple_create _ s sc troot raw Eraw _ _ _ _ _ I0 E1) as [_ P1].
+      destruct (P1 _ eq_refl) as (-> & -> & -> & G).
+      eapply tail_cleanup; eauto.
+    + injection H as <- ->. rewrite <- Eraw. eapply create_cleanup; eauto. rewrite Eraw, F0. exact Fr.
+  - injection H as <- ->. rewrite (ro_only_fs _ _ _ (ro_only_checks target scope newdir) _ _ _ E0). exact Fr.
 Qed.
 
 Corollary writes_confined_in orc ch fuel target scope newdir fault s w out :
@@ -1318,7 +1402,7 @@ Corollary writes_confined_in orc ch fuel target scope newdir fault s w out :
   run_localize orc ch fuel target scope newdir fault s = (w, out) ->
   forall e, In e (w_trace w) ->
     (mutating (ev_op e) = true -> is_prefix (newdir_path target newdir) (ev_target e) = true) /\
-    (ev_op e = ORemoveAll -> ev_path e = "" \/ ev_target e = newdir_path target newdir).
+    (ev_op e = ORemoveAll -> ev_target e = newdir_path target newdir).
 Proof.
   intros W H e Hin. pose proof (writes_confined _ _ _ _ _ _ _ _ _ _ W H) as F.
   rewrite Forall_forall in F. exact (F e Hin).
@@ -1335,17 +1419,6 @@ Proof.
   intros H. unfold join_abs, join_comps, show_rel. destruct lp as [|x lp].
   - reflexivity.
   - unfold split_path. rewrite split_join; auto. discriminate.
-Qed.
-
-Lemma step_ro_inv fault e w w1 r :
-  step_world fault e w = (w1, r) -> read_only e = true ->
-  w_fs w1 = w_fs w /\ (r = RFail \/ r = snd (exec e (w_fs w))).
-Proof.
-  intros H R. unfold step_world in H.
-  destruct (fallible e && fault_hit fault (w_n w))%bool.
-  - inv H. auto.
-  - pose proof (exec_read_only e (w_fs w) R) as X.
-    destruct (exec e (w_fs w)) as [s' r'] eqn:E. inv H. cbn in *. auto.
 Qed.
 
 Lemma exec_read_file s p c :
